@@ -22,7 +22,23 @@ import time
 VERIF = os.path.dirname(os.path.dirname(os.path.abspath(__file__)))
 SPEC = os.path.join(VERIF, "spec")
 HARNESS = os.path.join(VERIF, "harness")
-HARNESS_BIN = os.path.join(HARNESS, "target", "debug", "krillverif")
+TARGET = os.path.join(HARNESS, "target")
+# harness crates: directory under /verif -> binary name. All share one
+# target directory, so krill itself is compiled once.
+CRATES = {
+    "harness": "krillverif",
+    "harness-pub": "kv-pub",
+    "harness-store": "kv-store",
+    "harness-vec": "kv-vec",
+    "harness-auth": "kv-auth",
+    "harness-http": "kv-http",
+}
+HARNESS_BIN = os.path.join(TARGET, "debug", "krillverif")
+
+
+def harness_bin(crate="harness"):
+    return os.path.join(TARGET, "debug", CRATES[crate])
+
 OUT = os.path.join(VERIF, "out")
 EVIDENCE = os.path.join(VERIF, "evidence")
 REPO = "/repo"
@@ -48,34 +64,43 @@ def cargo_env():
     return env
 
 
-def build_harness(timeout=1800):
-    """Builds the harness (and krill with hooks on) from /repo's tree."""
+def build_harness(crate="harness", timeout=1800):
+    """Builds a harness crate (and krill with hooks on) from /repo's tree."""
     os.makedirs(OUT, exist_ok=True)
+    cdir = os.path.join(VERIF, crate)
     lock_path = os.path.join(OUT, ".build.lock")
     with open(lock_path, "w") as lock:
         fcntl.flock(lock, fcntl.LOCK_EX)
-        lockfile = os.path.join(HARNESS, "Cargo.lock")
+        lockfile = os.path.join(cdir, "Cargo.lock")
         if not os.path.exists(lockfile):
             shutil.copy(os.path.join(REPO, "Cargo.lock"), lockfile)
         t0 = time.time()
         p = subprocess.run(
-            ["cargo", "build", "--offline"], cwd=HARNESS, env=cargo_env(),
+            ["cargo", "build", "--offline"], cwd=cdir, env=cargo_env(),
             stdout=subprocess.PIPE, stderr=subprocess.STDOUT, text=True,
             timeout=timeout)
         if p.returncode != 0:
             sys.stdout.write(p.stdout[-6000:])
-            raise ToolError("cargo build of the harness failed")
+            raise ToolError(f"cargo build of {crate} failed")
         dt = time.time() - t0
         if dt > 5:
-            log(f"harness built in {dt:.0f}s")
-    if not os.path.exists(HARNESS_BIN):
-        raise ToolError("harness binary missing after build")
+            log(f"{crate} built in {dt:.0f}s")
+    if not os.path.exists(harness_bin(crate)):
+        raise ToolError(f"binary of {crate} missing after build")
+
+
+def build_all(timeout=3600):
+    for crate in CRATES:
+        if os.path.exists(os.path.join(VERIF, crate, "Cargo.toml")):
+            build_harness(crate, timeout=timeout)
 
 
 def ensure_keypool(count=1500):
     path = os.path.join(HARNESS, "keypool.bin")
     if os.path.exists(path) and os.path.getsize(path) > 1000 * count:
         return
+    if not os.path.exists(HARNESS_BIN):
+        build_harness("harness")
     log(f"generating RSA key pool ({count} keys)")
     subprocess.run([HARNESS_BIN, "gen-keys", "--count", str(count)],
                    check=True, timeout=1800)
@@ -251,7 +276,7 @@ def read_ndjson(path):
 
 
 def run_harness(subcmd, behaviours, workdir, shards=None, extra=None,
-                timeout=3600, env_extra=None):
+                timeout=3600, env_extra=None, crate="harness"):
     """Runs the harness driver over the behaviours, sharded; returns trace."""
     os.makedirs(workdir, exist_ok=True)
     if shards is None:
@@ -267,7 +292,7 @@ def run_harness(subcmd, behaviours, workdir, shards=None, extra=None,
         outp = os.path.join(workdir, f"trace_{i}.ndjson")
         work = os.path.join(workdir, f"work_{i}")
         write_ndjson(inp, part)
-        cmd = [HARNESS_BIN, subcmd, "--in", inp, "--out", outp,
+        cmd = [harness_bin(crate), subcmd, "--in", inp, "--out", outp,
                "--work", work] + (extra or [])
         logf = open(os.path.join(workdir, f"harness_{i}.log"), "w")
         procs.append((subprocess.Popen(cmd, stdout=logf, stderr=logf,
